@@ -40,9 +40,11 @@ def trees(draw, max_depth=3, unique_stems=True, bytecode=False):
 
     def files_for(dirname):
         out = []
-        n = draw(st.integers(0, 4))
+        # (a directory that can be a "tests package" gets enough files to make their relative order observable)
+        n = draw(st.integers(2, 5)) if 'tests' in dirname else draw(st.integers(0, 4))
         for _ in range(n):
-            kind = draw(st.sampled_from(['tests_', 'tests_', 'test_', 'test_', 'ftests_', 'other_', 'checks_', 'xtests_']))
+            kind = draw(st.sampled_from(['tests_', 'tests_', 'test_', 'test_', 'ftests_', 'other_', 'checks_', 'xtests_', 'atests_',
+                                          'ztest_']))
             ext = draw(st.sampled_from(['.py', '.py', '.py', '.py', '.txt', '.pyx', '.py.bak', '.PY']))
             out.append(stem(kind) + ext)
         if bytecode:
@@ -62,7 +64,8 @@ def trees(draw, max_depth=3, unique_stems=True, bytecode=False):
         return out
 
     def node(name, depth):
-        d = {'name': name, 'dirs': [], 'files': [], 'init': draw(st.sampled_from([True, True, False]))}
+        d = {'name': name, 'dirs': [], 'files': [],
+             'init': draw(st.sampled_from([True, True, True, True, False] if 'tests' in name else [True, True, False]))}
         seen = set()
         for f in files_for(name):
             if isinstance(f, tuple):
